@@ -136,6 +136,7 @@ func LoadProgram(o LoadOpts) (*Prog, error) {
 	var errs []string
 	packages.Visit(roots, nil, func(pk *packages.Package) {
 		p.Pkgs[pk.PkgPath] = pk
+		loadedPkgPaths[pk.PkgPath] = true
 		for _, e := range pk.Errors {
 			errs = append(errs, pk.PkgPath+": "+e.Error())
 		}
@@ -248,8 +249,13 @@ func pkgPathOf(short string) string {
 	if strings.HasPrefix(short, "github.com/") || strings.HasPrefix(short, "golang.org/") || !strings.Contains(short, "/") && isStdlib(short) {
 		return short
 	}
+	if loadedPkgPaths[short] && !loadedPkgPaths[modPath+"/"+short] {
+		return short
+	}
 	return modPath + "/" + short
 }
+
+var loadedPkgPaths = map[string]bool{}
 
 func isStdlib(s string) bool {
 	switch s {
